@@ -216,6 +216,11 @@ def build_call(EoN, e, sc, tau, gamma, grid, full):
             kw["initial_infecteds"] = list(sc.inf)
             if sc.rec:
                 kw["initial_recovereds"] = list(sc.rec)
+            # a list may name a node more than once (seeds drawn with replacement, concatenated lists): same set of nodes
+            if (len(sc.inf) + len(sc.edges) + len(e["name"])) % 3 == 0 and sc.inf:
+                kw["initial_infecteds"] = list(sc.inf) + [list(sc.inf)[0]]
+                if sc.rec:
+                    kw["initial_recovereds"] = [list(sc.rec)[-1]] + list(sc.rec)
         return fn, (sc.graph(),) + rates, kw
     if c == "fg_rho":
         kw["rho"] = sc.rho_f()
